@@ -243,9 +243,11 @@ def observe(text, params=None, loop_id=None, map_path=None, settings=None):
     return out
 
 
-def fresh(text, loop_id, settings=None):
+def fresh(text, loop_id, settings=None, hashseed=None):
     """the same observation in a fresh interpreter"""
     env = dict(os.environ)
+    if hashseed is not None:
+        env['PYTHONHASHSEED'] = str(hashseed)
     p = subprocess.run(['/venv/bin/python', '-W', 'ignore', '-c',
                         'import sys, json; sys.path.insert(0, %r); sys.path.insert(0, %r)\n'
                         'from harness import c18\n'
@@ -379,6 +381,25 @@ def run(tier):
             # decided by the histories above (different settings for the same map in one process)
             res.broke('correspondence:Globals.module-containers', 'module-level container %s changed during the histories: %s -> %s' % (
                 k, before.get(k, '<absent>')[:120], (after.get(k) or '')[:120]))
+    # run-to-run differences other than timestamps and control numbers: one document whose segment carries two different
+    # segment-level codes (leading blank + trailing separator), in fresh interpreters that differ only in the string hash seed
+    m0 = [e for e in entries if e['map_file'].startswith('834')][0]
+    g0 = gendoc.Gen(m0['map_file'], m0['icvn'], m0['vriic'], m0['fic'], seed=7, p_opt=0.0, max_rep=1, tspc=m0.get('tspc'))
+    lines0 = g0.doc().strip().split('\n')
+    j0 = next(i for i, l in enumerate(lines0) if l.startswith('N1*'))
+    lines0[j0] = ' ' + lines0[j0].rstrip('~') + '*~'
+    t0 = '\n'.join(lines0) + '\n'
+    obs = [fresh(t0, None, None, hashseed=hs) for hs in ((0, 1, 2, 3, 6) if not thorough else range(12))]
+    res.count(len(obs))
+    for o in obs[1:]:
+        if o != obs[0]:
+            diff = [k for k in o if o.get(k) != obs[0].get(k)]
+            res.violation('pred:hash-seed-dependent:%s' % '-'.join(diff),
+                          'the same document gives a different %s in two fresh processes that differ only in PYTHONHASHSEED' % diff,
+                          {'history': [{'map': m0['map_file'], 'loop_id': None, 'document': t0, 'settings': None}],
+                           'call': 'harness.c18.observe in fresh interpreters with PYTHONHASHSEED=0 / 1 / 2 / 3 / 6',
+                           'observed': {k: repr(o.get(k))[:500] for k in diff}, 'required': {k: repr(obs[0].get(k))[:500] for k in diff}})
+            break
     if built:
         # the documents of the histories once more, in THIS process (after everything above ran in it), against the pure
         # end-to-end model (Props/C18Doc.lean: a session is the map of validateDoc over the requests)
